@@ -699,6 +699,19 @@ func (w *World) exec(line string) Result {
 		}
 		w.SK.SetParams(w.at(), p)
 		return Result{Line: "ok"}
+	case "setprices": // denom:price,denom:price  (governance sets the settlement gas prices)
+		p := w.SK.GetParams(w.at())
+		var dcs sdk.DecCoins
+		for _, kvp := range strings.Split(f[1], ",") {
+			kv := strings.SplitN(kvp, ":", 2)
+			dcs = dcs.Add(sdk.NewDecCoinFromDec(kv[0], decTok(kv[1])))
+		}
+		p.GasPrices = dcs
+		if err := p.Validate(); err != nil {
+			return Result{Line: "err", Detail: err.Error()}
+		}
+		w.SK.SetParams(w.at(), p)
+		return Result{Line: "ok"}
 	case "setval": // v power bonded(0/1) jailed(0/1) probonoRate|-
 		w.setVal(f[1], int64(u64(f[2])), f[3] == "1", f[4] == "1", f[5])
 		return Result{Line: "ok"}
